@@ -389,24 +389,48 @@ type mockDaemon struct {
 	daemon.Connector // nil: only the DRKey calls are served
 	secret           []byte
 	calls            int
+	// epochLen > 0: keys change every epochLen of (virtual) time, each valid for its epoch only
+	epochLen time.Duration
+	// failHostAS: the daemon is unavailable to the server side (Host-AS key requests fail)
+	failHostAS bool
+	failed     int
+	lastHH     time.Time // the instant the last host-to-host key request named (a client's)
 }
 
-func (m *mockDaemon) hostAS(proto drkey.Protocol, srcIA, dstIA addr.IA, srcHost string) drkey.HostASKey {
-	h := sha256.Sum256([]byte(fmt.Sprintf("%s|%d|%s|%s|%s", m.secret, proto, srcIA, dstIA, srcHost)))
+var errDaemonDown = fmt.Errorf("sim: SCION daemon unavailable")
+
+func (m *mockDaemon) hostASAt(proto drkey.Protocol, srcIA, dstIA addr.IA, srcHost string, at time.Time) drkey.HostASKey {
+	idx := int64(0)
+	nb, na := time.Date(1990, 1, 1, 0, 0, 0, 0, time.UTC), time.Date(2200, 1, 1, 0, 0, 0, 0, time.UTC)
+	if m.epochLen > 0 {
+		idx = at.UnixNano() / int64(m.epochLen)
+		nb = time.Unix(0, idx*int64(m.epochLen))
+		na = nb.Add(m.epochLen)
+	}
+	h := sha256.Sum256([]byte(fmt.Sprintf("%s|%d|%s|%s|%s|%d", m.secret, proto, srcIA, dstIA, srcHost, idx)))
 	k := drkey.HostASKey{ProtoId: proto, SrcIA: srcIA, DstIA: dstIA, SrcHost: srcHost,
-		Epoch: drkey.Epoch{Validity: cppki.Validity{NotBefore: time.Date(1990, 1, 1, 0, 0, 0, 0, time.UTC), NotAfter: time.Date(2200, 1, 1, 0, 0, 0, 0, time.UTC)}}}
+		Epoch: drkey.Epoch{Validity: cppki.Validity{NotBefore: nb, NotAfter: na}}}
 	copy(k.Key[:], h[:16])
 	return k
 }
 
+func (m *mockDaemon) hostAS(proto drkey.Protocol, srcIA, dstIA addr.IA, srcHost string) drkey.HostASKey {
+	return m.hostASAt(proto, srcIA, dstIA, srcHost, time.Now())
+}
+
 func (m *mockDaemon) DRKeyGetHostASKey(ctx context.Context, meta drkey.HostASMeta) (drkey.HostASKey, error) {
 	m.calls++
-	return m.hostAS(meta.ProtoId, meta.SrcIA, meta.DstIA, meta.SrcHost), nil
+	if m.failHostAS {
+		m.failed++
+		return drkey.HostASKey{}, errDaemonDown
+	}
+	return m.hostASAt(meta.ProtoId, meta.SrcIA, meta.DstIA, meta.SrcHost, meta.Validity), nil
 }
 
 func (m *mockDaemon) DRKeyGetHostHostKey(ctx context.Context, meta drkey.HostHostMeta) (drkey.HostHostKey, error) {
 	m.calls++
-	has := m.hostAS(meta.ProtoId, meta.SrcIA, meta.DstIA, meta.SrcHost)
+	m.lastHH = meta.Validity
+	has := m.hostASAt(meta.ProtoId, meta.SrcIA, meta.DstIA, meta.SrcHost, meta.Validity)
 	k, err := generic.Deriver{Proto: meta.ProtoId}.DeriveHostHost(meta.DstHost, has.Key)
 	if err != nil {
 		return drkey.HostHostKey{}, err
@@ -415,9 +439,19 @@ func (m *mockDaemon) DRKeyGetHostHostKey(ctx context.Context, meta drkey.HostHos
 		SrcHost: meta.SrcHost, DstHost: meta.DstHost, Key: k}, nil
 }
 
+// hostHostKeyFrom derives the host-to-host key from an arbitrary Host-AS key (what a forger
+// does who guesses that the server fell back to some other first-level key).
+func hostHostKeyFrom(hostAS drkey.Key, cliHost string) []byte {
+	k, err := generic.Deriver{Proto: scion.DRKeyProtocolTS}.DeriveHostHost(cliHost, hostAS)
+	if err != nil {
+		return nil
+	}
+	return append([]byte(nil), k[:]...)
+}
+
 // hostHostKey is what the oracle uses: the key between server host and client host.
 func (m *mockDaemon) hostHostKey(srvIA, cliIA addr.IA, srvHost, cliHost string) []byte {
-	k, _ := m.DRKeyGetHostHostKey(context.Background(), drkey.HostHostMeta{ProtoId: scion.DRKeyProtocolTS,
+	k, _ := m.DRKeyGetHostHostKey(context.Background(), drkey.HostHostMeta{ProtoId: scion.DRKeyProtocolTS, Validity: time.Now(),
 		SrcIA: srvIA, DstIA: cliIA, SrcHost: srvHost, DstHost: cliHost})
 	m.calls--
 	return append([]byte(nil), k.Key[:]...)
